@@ -100,3 +100,8 @@ package key
 //@   ensures [C20:decoded-group-packet-threshold-is-at-most-the-node-count] err == nil ==> group.Threshold <= len(group.Nodes)
 //@   ensures [C20:decoded-group-packet-scheme-is-known] err == nil ==> group.Scheme != nil && crypto.knownScheme(group.Scheme.Name) && group.Scheme.Name == g.SchemeID
 //@   ensures [C20:decoded-group-packet-carries-its-fields] err == nil ==> group.Threshold == g.Threshold && (g.GenesisTime < 9223372036854775808 ==> group.GenesisTime == g.GenesisTime) && group.Period == g.Period * 1000000000 && group.CatchupPeriod == g.CatchupPeriod * 1000000000 && (g.TransitionTime < 9223372036854775808 ==> group.TransitionTime == g.TransitionTime) && (g.Metadata != nil ==> group.ID == g.Metadata.BeaconID)
+
+//@ func (*Identity).Address(i) (r)
+//@   props C08 C09
+//@   modifies nothing
+//@   ensures [C08,C09:address-accessor] r == i.Addr
